@@ -70,7 +70,9 @@ def gen_random(rnd, n):
             B = qgen.gen_table(rnd, ncols=bcols, ragged=0.1)
             q['join'] = qgen.gen_join(rnd, ncols, bcols)
         if rnd.random() < 0.12 and not use_join:
-            q['except'] = sorted(set(rnd.randrange(ncols) for _ in range(rnd.randint(1, 2))), reverse=rnd.random() < 0.5)
+            q['except'] = sorted(set(rnd.randrange(ncols + 2) for _ in range(rnd.randint(1, 2))), reverse=rnd.random() < 0.5)
+            if rnd.random() < 0.3:      # the same column named twice (two spellings) and columns beyond the record
+                q['except'].insert(rnd.randrange(len(q['except']) + 1), rnd.choice(q['except']))
         else:
             has_unnest = False
             for _i in range(rnd.randint(1, 4)):
